@@ -425,7 +425,14 @@ func runTree(seed int64, idx int) {
 		if e.Kind != "fail" {
 			continue
 		}
-		if i > 0 && evs[i-1].Kind == "fail-wc" && evs[i-1].DN == e.DN {
+		wc := false
+		for j := i - 1; j >= 0; j-- { // the service's own previous event (events of other services may be logged in between)
+			if evs[j].DN == e.DN {
+				wc = evs[j].Kind == "fail-wc"
+				break
+			}
+		}
+		if wc {
 			continue // see fail(): may legitimately be booked as a cancellation
 		}
 		for j := i + 1; j < len(evs); j++ {
@@ -476,6 +483,12 @@ func runTree(seed int64, idx int) {
 				caused := false
 				for _, f := range evs {
 					if f.Kind == "fail" && cone[f.DN] && f.T >= lastDone-time.Second && f.T <= e.T {
+						caused = true
+					}
+					// an ancestor that was restarted between the completion and the re-entry re-creates the service whatever
+					// the time of the failure that led to that restart (a child may even complete while its dead parent is
+					// still sitting out its back-off: its own pending restart fires in between)
+					if f.Kind == "enter" && f.DN != n.dn && strings.HasPrefix(n.dn, f.DN+".") && f.T >= lastDone && f.T <= e.T {
 						caused = true
 					}
 				}
